@@ -475,6 +475,13 @@ func (tr *fnTrans) convert(in *ssa.Convert) {
 		} else {
 			_ = "conv axioms are opt-in (uses conv): identical conversion terms need no axioms"
 		}
+	case x.T == SF64 && s != nil && s.Name == "F32":
+		// float32(x): an uninterpreted rounding function (F32 is an opaque sort)
+		if _, ok := tr.v.sortCache["fn|f64to32"]; !ok {
+			tr.v.sortCache["fn|f64to32"] = s
+			tr.v.opaqueDecls = append(tr.v.opaqueDecls, "(declare-fun f64to32 (F64) F32)")
+		}
+		tr.setVal(in, s, app("f64to32", x.S))
 	case x.T == SInt && s == SF64:
 		if kf, ok := tr.shadow[in.X]; ok {
 			tr.setVal(in, SF64, kf)
@@ -630,6 +637,63 @@ func (tr *fnTrans) makeInterface(in *ssa.MakeInterface) {
 		return
 	}
 	tr.setVal(in, s, app(box, x.S))
+	// reflection view of a boxed basic value (module reflectspec): the dynamic type has the kind of the underlying
+	// basic type and the interface holds exactly the boxed value
+	if s.Name == "I_any" && tr.uses["reflectspec"] {
+		if b, ok := in.X.Type().Underlying().(*types.Basic); ok {
+			bx := tr.vals[in].S
+			if k := reflectKindOf(b); k > 0 {
+				tr.hyp(app("=", app("rtKind", app("dynType", bx)), intLit(int64(k))))
+			}
+			switch {
+			case xs == SStr:
+				tr.hyp(app("=", app("dynStr", bx), x.S))
+			case xs == SBool:
+				tr.hyp(app("=", app("dynBool", bx), x.S))
+			case xs == SF64:
+				tr.hyp(app("=", app("dynF64", bx), x.S))
+			case xs == SInt:
+				tr.hyp(app("=", app("dynInt", bx), x.S))
+			}
+		}
+	}
+}
+
+// reflect.Kind of a basic type (reflect's numbering: Bool 1, Int 2 .. Int64 6, Uint 7 .. Uintptr 12, Float32 13, Float64 14, String 24)
+func reflectKindOf(b *types.Basic) int {
+	switch b.Kind() {
+	case types.Bool:
+		return 1
+	case types.Int:
+		return 2
+	case types.Int8:
+		return 3
+	case types.Int16:
+		return 4
+	case types.Int32:
+		return 5
+	case types.Int64:
+		return 6
+	case types.Uint:
+		return 7
+	case types.Uint8:
+		return 8
+	case types.Uint16:
+		return 9
+	case types.Uint32:
+		return 10
+	case types.Uint64:
+		return 11
+	case types.Uintptr:
+		return 12
+	case types.Float32:
+		return 13
+	case types.Float64:
+		return 14
+	case types.String:
+		return 24
+	}
+	return 0
 }
 
 func (v *verifier) declareBox(iface, conc *Sort, tag string) {
